@@ -1,378 +1,11 @@
+(* R-instance theorems about the restraint potentials (closed forms, shortest image, closest wall, ABMD
+   ratchet), a computable rational carrier for the examples, and the examples themselves.
+   Schedules: RestraintSched.v; staged TI: RestraintTI.v; accumulated work: RestraintWork.v. *)
 From Coq Require Import ZArith List Bool Reals Lra Lia Psatz QArith Qround.
 From Flocq Require Import Core.Raux.
-From CV Require Import Base.Num Base.RNum C06.RestraintModel.
+From CV Require Import Base.Num Base.RNum C06.RestraintModel C06.RestraintSched C06.RestraintTI C06.RestraintWork.
 Import ListNotations.
 Local Open Scope Z_scope.
-
-(* ------------------------------------------------------------------ generic facts about the run *)
-Ltac split_ifs :=
-  repeat match goal with
-         | |- context [if ?b then _ else _] => destruct b
-         | |- context [match ?l with [] => _ | _ :: _ => _ end] => destruct l
-         end.
-
-Section Generic.
-  Context {T : Type} (O : NumOps T).
-  Notation rcfg := (@rcfg T). Notation rstate := (@rstate T). Notation mstate := (@mstate T). Notation event := (@event T).
-
-  Lemma run_snoc (c : rcfg) evs e : run O c (evs ++ [e]) = mstep O c (run O c evs) e.
-  Proof. unfold run. rewrite fold_left_app. reflexivity. Qed.
-
-  Lemma run_inv (P : mstate -> Prop) (c : rcfg) :
-    P (init_m O c) -> (forall m e, P m -> P (mstep O c m e)) -> forall evs, P (run O c evs).
-  Proof.
-    intros H0 Hs evs. induction evs as [|e evs IH] using rev_ind.
-    - exact H0.
-    - rewrite run_snoc. apply Hs, IH.
-  Qed.
-
-  Lemma mstep_not_fresh (c : rcfg) m e : m_fresh (mstep O c m e) = false.
-  Proof. unfold mstep. destruct (rstep O c _ _ _ _). reflexivity. Qed.
-
-  Lemma run_not_fresh (c : rcfg) evs : evs <> [] -> m_fresh (run O c evs) = false.
-  Proof.
-    intros H. destruct (exists_last H) as [l [e ->]]. rewrite run_snoc. apply mstep_not_fresh.
-  Qed.
-
-  (* which parts of the state each sub-update touches *)
-  Lemma k_update_centers c s t xs : s_centers (fst (k_update O c s t xs)) = s_centers s.
-  Proof. unfold k_update. split_ifs; reflexivity. Qed.
-  Lemma k_update_first c s t xs : s_first (fst (k_update O c s t xs)) = s_first s.
-  Proof. unfold k_update. split_ifs; reflexivity. Qed.
-  Lemma k_update_W c s t xs : s_W (fst (k_update O c s t xs)) = s_W s.
-  Proof. unfold k_update. split_ifs; reflexivity. Qed.
-  Lemma k_update_incr c s t xs : s_incr (fst (k_update O c s t xs)) = s_incr s.
-  Proof. unfold k_update. split_ifs; reflexivity. Qed.
-  Lemma k_update_off c s t xs : c_chg_k c = false -> k_update O c s t xs = (s, None).
-  Proof. unfold k_update. intros ->. reflexivity. Qed.
-
-  Lemma centers_update_k c s t rel : s_k (centers_update O c s t rel) = s_k s.
-  Proof. unfold centers_update. split_ifs; reflexivity. Qed.
-  Lemma centers_update_first c s t rel : s_first (centers_update O c s t rel) = s_first s.
-  Proof. unfold centers_update. split_ifs; reflexivity. Qed.
-  Lemma centers_update_W c s t rel : s_W (centers_update O c s t rel) = s_W s.
-  Proof. unfold centers_update. split_ifs; reflexivity. Qed.
-  Lemma centers_update_off c s t rel : c_chg_centers c = false -> centers_update O c s t rel = s.
-  Proof. unfold centers_update. intros ->. reflexivity. Qed.
-
-  Lemma work_centers_fields c s t rel f :
-    s_centers (work_centers O c s t rel f) = s_centers s /\ s_k (work_centers O c s t rel f) = s_k s /\
-    s_first (work_centers O c s t rel f) = s_first s /\ s_stage (work_centers O c s t rel f) = s_stage s.
-  Proof. unfold work_centers. split_ifs; repeat split; reflexivity. Qed.
-  Lemma work_k_fields c s rel xs :
-    s_centers (work_k O c s rel xs) = s_centers s /\ s_k (work_k O c s rel xs) = s_k s /\
-    s_first (work_k O c s rel xs) = s_first s /\ s_stage (work_k O c s rel xs) = s_stage s.
-  Proof. unfold work_k. split_ifs; repeat split; reflexivity. Qed.
-
-  (* one restraint update, seen through its parameters *)
-  Lemma rstep_centers c s t rel xs :
-    s_centers (fst (rstep O c s t rel xs)) = s_centers (centers_update O c s t rel).
-  Proof.
-    unfold rstep. pose proof (k_update_centers c (centers_update O c s t rel) t xs) as Hk.
-    destruct (k_update O c (centers_update O c s t rel) t xs) as [s2 line]; cbn [fst] in *.
-    destruct (work_k_fields c (work_centers O c s2 t rel (map frc3 (terms O c s2 xs))) rel xs) as [H1 _].
-    destruct (work_centers_fields c s2 t rel (map frc3 (terms O c s2 xs))) as [H2 _].
-    cbn [fst]. rewrite H1, H2. exact Hk.
-  Qed.
-
-  Lemma rstep_first c s t rel xs : s_first (fst (rstep O c s t rel xs)) = s_first s.
-  Proof.
-    unfold rstep. pose proof (k_update_first c (centers_update O c s t rel) t xs) as Hk.
-    destruct (k_update O c (centers_update O c s t rel) t xs) as [s2 line]; cbn [fst] in *.
-    destruct (work_k_fields c (work_centers O c s2 t rel (map frc3 (terms O c s2 xs))) rel xs) as [_ [_ [H1 _]]].
-    destruct (work_centers_fields c s2 t rel (map frc3 (terms O c s2 xs))) as [_ [_ [H2 _]]].
-    cbn [fst]. rewrite H1, H2, Hk. apply centers_update_first.
-  Qed.
-
-  Lemma rstep_k c s t rel xs :
-    s_k (fst (rstep O c s t rel xs)) = s_k (fst (k_update O c (centers_update O c s t rel) t xs)).
-  Proof.
-    unfold rstep.
-    destruct (k_update O c (centers_update O c s t rel) t xs) as [s2 line]; cbn [fst] in *.
-    destruct (work_k_fields c (work_centers O c s2 t rel (map frc3 (terms O c s2 xs))) rel xs) as [_ [H1 _]].
-    destruct (work_centers_fields c s2 t rel (map frc3 (terms O c s2 xs))) as [_ [H2 _]].
-    cbn [fst]. rewrite H1, H2. reflexivity.
-  Qed.
-
-  (* the step number the engine is at after an event *)
-  Definition ev_it (m : mstate) (e : event) : Z :=
-    match e with EStep _ => if m_fresh m then m_it m else m_it m + 1 | _ => m_it m end.
-  Definition ev_itr (m : mstate) (e : event) : Z :=
-    match e with ERestart _ => ev_it m e | _ => m_itr m end.
-  Definition ev_s0 (c : rcfg) (m : mstate) (e : event) : rstate :=
-    match e with ERestart _ => restore O c (m_st m) | _ => m_st m end.
-
-  Lemma mstep_unfold c m e :
-    m_it (mstep O c m e) = ev_it m e /\ m_itr (mstep O c m e) = ev_itr m e /\
-    m_st (mstep O c m e) = fst (rstep O c (ev_s0 c m e) (ev_it m e) (ev_it m e - ev_itr m e) (ev_xs e)).
-  Proof.
-    unfold mstep, ev_it, ev_itr, ev_s0.
-    destruct e; destruct (rstep O c _ _ _ _) as [s1 o]; cbn [m_it m_itr m_st fst]; auto.
-  Qed.
-
-  (* ---------------------------------------------------------------- continuous moving centres *)
-  Definition sched_lambda (c : rcfg) (t : Z) : T :=
-    ratio O (Z.min (t - c_it0 c) (c_nsteps c)) (c_nsteps c).
-  Definition closed_centers (c : rcfg) (t : Z) : list T :=
-    map2 (wrapv O) (c_vars c) (new_centers O c (sched_lambda c t)).
-
-  Definition inv_cc (c : rcfg) (m : mstate) : Prop :=
-    s_first (m_st m) = c_it0 c /\ c_it0 c <= m_it m /\
-    (m_fresh m = true -> m_it m = c_it0 c) /\
-    (m_fresh m = false -> s_centers (m_st m) = closed_centers c (m_it m)).
-
-  Lemma restore_first c s : c_chg_centers c || c_chg_k c = true -> s_first (restore O c s) = s_first s.
-  Proof. unfold restore. intros ->. reflexivity. Qed.
-
-  Lemma ev_s0_first c m e : c_chg_centers c || c_chg_k c = true -> s_first (ev_s0 c m e) = s_first (m_st m).
-  Proof. intros H. destruct e; cbn [ev_s0]; auto using restore_first. Qed.
-
-  Lemma inv_cc_step c m e :
-    c_chg_centers c = true -> c_nstages c = 0 -> 0 <= c_nsteps c ->
-    inv_cc c m -> inv_cc c (mstep O c m e).
-  Proof.
-    intros Hc Hn HN [Hf [Hle [Hfr Hcen]]].
-    destruct (mstep_unfold c m e) as [Hit [_ Hst]].
-    assert (Hmov : c_chg_centers c || c_chg_k c = true) by (rewrite Hc; reflexivity).
-    assert (Hit' : ev_it m e = m_it m \/ (ev_it m e = m_it m + 1 /\ m_fresh m = false)).
-    { unfold ev_it. destruct e; auto. destruct (m_fresh m); auto. }
-    unfold inv_cc. rewrite Hit, Hst, rstep_first, ev_s0_first, mstep_not_fresh by assumption.
-    split; [exact Hf|]. split; [lia|]. split; [discriminate|]. intros _.
-    rewrite rstep_centers.
-    assert (Hs0c : s_centers (ev_s0 c m e) = s_centers (m_st m)).
-    { destruct e; cbn [ev_s0]; try reflexivity. unfold restore. rewrite Hc. reflexivity. }
-    assert (Hs0f : s_first (ev_s0 c m e) = c_it0 c) by (rewrite ev_s0_first; assumption).
-    unfold centers_update. rewrite Hc, Hn. cbn [Z.eqb negb].
-    set (t := ev_it m e) in *. rewrite Hs0f.
-    destruct (t - c_it0 c <=? c_nsteps c) eqn:Ele.
-    - apply Z.leb_le in Ele.
-      assert (Hcc : s_centers (update_centers O c (ev_s0 c m e) (ratio O (t - c_it0 c) (c_nsteps c))) = closed_centers c t).
-      { unfold update_centers, closed_centers, sched_lambda. cbn [s_centers]. rewrite Z.min_l by lia. reflexivity. }
-      destruct (_ =? 0); [cbn [set_incr s_centers]|]; exact Hcc.
-    - apply Z.leb_gt in Ele.
-      assert (Hnf : m_fresh m = false).
-      { destruct (m_fresh m) eqn:F; auto. specialize (Hfr eq_refl). destruct Hit' as [H|[_ H]]; [lia|discriminate]. }
-      assert (Hcc : s_centers (ev_s0 c m e) = closed_centers c t).
-      { rewrite Hs0c, (Hcen Hnf). unfold closed_centers, sched_lambda.
-        assert (H1 : c_nsteps c <= m_it m - c_it0 c). { destruct Hit' as [H|[H _]]; lia. }
-        assert (H2 : c_nsteps c <= t - c_it0 c) by lia.
-        rewrite (Z.min_r _ _ H1), (Z.min_r _ _ H2). reflexivity. }
-      destruct (_ =? 0); cbn [set_incr s_centers]; exact Hcc.
-  Qed.
-
-  Lemma center_schedule_continuous (c : rcfg) (evs : list event) :
-    c_chg_centers c = true -> c_nstages c = 0 -> 0 <= c_nsteps c -> evs <> [] ->
-    s_centers (m_st (run O c evs)) = closed_centers c (m_it (run O c evs)) /\
-    s_first (m_st (run O c evs)) = c_it0 c.
-  Proof.
-    intros Hc Hn HN Hne.
-    assert (H : inv_cc c (run O c evs)).
-    { apply run_inv.
-      - unfold inv_cc, init_m, init_state; cbn [m_st m_it m_fresh s_first s_centers].
-        repeat split; try lia; try discriminate.
-      - intros m e. apply inv_cc_step; assumption. }
-    destruct H as [Hf [_ [_ Hcen]]]. split; [apply Hcen, run_not_fresh; assumption | exact Hf].
-  Qed.
-
-  (* ---------------------------------------------------------------- continuously changing force constant *)
-  Definition closed_k (c : rcfg) (t : Z) : T :=
-    k_of_lambda O c (if c_decoupling c then nsub O (n1 O) (sched_lambda c t) else sched_lambda c t).
-
-  Definition inv_kc (c : rcfg) (m : mstate) : Prop :=
-    s_first (m_st m) = c_it0 c /\ c_it0 c <= m_it m /\
-    (m_fresh m = true -> m_it m = c_it0 c) /\
-    (m_fresh m = false -> s_k (m_st m) = closed_k c (m_it m)).
-
-  Lemma inv_kc_step c m e :
-    c_chg_k c = true -> c_nstages c = 0 -> 0 <= c_nsteps c ->
-    inv_kc c m -> inv_kc c (mstep O c m e).
-  Proof.
-    intros Hc Hn HN [Hf [Hle [Hfr Hk]]].
-    destruct (mstep_unfold c m e) as [Hit [_ Hst]].
-    assert (Hmov : c_chg_centers c || c_chg_k c = true) by (rewrite Hc; apply orb_true_r).
-    assert (Hit' : ev_it m e = m_it m \/ (ev_it m e = m_it m + 1 /\ m_fresh m = false)).
-    { unfold ev_it. destruct e; auto. destruct (m_fresh m); auto. }
-    unfold inv_kc. rewrite Hit, Hst, rstep_first, ev_s0_first, mstep_not_fresh by assumption.
-    split; [exact Hf|]. split; [lia|]. split; [discriminate|]. intros _.
-    rewrite rstep_k.
-    assert (Hs0k : s_k (ev_s0 c m e) = s_k (m_st m)).
-    { destruct e; cbn [ev_s0]; try reflexivity. unfold restore. rewrite Hc. reflexivity. }
-    assert (Hs0f : s_first (ev_s0 c m e) = c_it0 c) by (rewrite ev_s0_first; assumption).
-    set (t := ev_it m e) in *.
-    set (s1 := centers_update O c (ev_s0 c m e) t (t - ev_itr m e)).
-    assert (H1f : s_first s1 = c_it0 c) by (unfold s1; rewrite centers_update_first; exact Hs0f).
-    assert (H1k : s_k s1 = s_k (m_st m)) by (unfold s1; rewrite centers_update_k; exact Hs0k).
-    unfold k_update. rewrite Hc, Hn. cbn [Z.eqb negb]. rewrite H1f.
-    destruct (t - c_it0 c <=? c_nsteps c) eqn:Ele.
-    - apply Z.leb_le in Ele. cbn [fst set_k s_k]. unfold closed_k, sched_lambda.
-      rewrite Z.min_l by lia. reflexivity.
-    - apply Z.leb_gt in Ele. cbn [fst].
-      assert (Hnf : m_fresh m = false).
-      { destruct (m_fresh m) eqn:F; auto. specialize (Hfr eq_refl). destruct Hit' as [H|[_ H]]; [lia|discriminate]. }
-      rewrite H1k, (Hk Hnf). unfold closed_k, sched_lambda.
-      assert (H1 : c_nsteps c <= m_it m - c_it0 c) by (destruct Hit' as [H|[H _]]; lia).
-      assert (H2 : c_nsteps c <= t - c_it0 c) by lia.
-      rewrite (Z.min_r _ _ H1), (Z.min_r _ _ H2). reflexivity.
-  Qed.
-
-  Lemma k_schedule_continuous (c : rcfg) (evs : list event) :
-    c_chg_k c = true -> c_nstages c = 0 -> 0 <= c_nsteps c -> evs <> [] ->
-    s_k (m_st (run O c evs)) = closed_k c (m_it (run O c evs)) /\
-    s_first (m_st (run O c evs)) = c_it0 c.
-  Proof.
-    intros Hc Hn HN Hne.
-    assert (H : inv_kc c (run O c evs)).
-    { apply run_inv.
-      - unfold inv_kc, init_m, init_state; cbn [m_st m_it m_fresh s_first s_k].
-        repeat split; try lia; try discriminate.
-      - intros m e. apply inv_kc_step; assumption. }
-    destruct H as [Hf [_ [_ Hk]]]. split; [apply Hk, run_not_fresh; assumption | exact Hf].
-  Qed.
-
-  (* the engine's step counter after a history: the number of EStep events after the first event *)
-  Fixpoint count_steps (evs : list event) : Z :=
-    match evs with
-    | [] => 0
-    | EStep _ :: r => 1 + count_steps r
-    | _ :: r => count_steps r
-    end.
-  Lemma count_steps_app a b : count_steps (a ++ b) = count_steps a + count_steps b.
-  Proof. induction a as [|e a IH]; cbn [app count_steps]; [lia|]. destruct e; lia. Qed.
-
-  Lemma run_it (c : rcfg) e evs : m_it (run O c (e :: evs)) = c_it0 c + count_steps evs.
-  Proof.
-    induction evs as [|e' evs IH] using rev_ind.
-    - unfold run; cbn [fold_left]. destruct (mstep_unfold c (init_m O c) e) as [H _]. rewrite H.
-      unfold ev_it, init_m; cbn [m_fresh m_it count_steps]. destruct e; lia.
-    - rewrite app_comm_cons, run_snoc. destruct (mstep_unfold c (run O c (e :: evs)) e') as [H _]. rewrite H.
-      unfold ev_it. rewrite run_not_fresh by discriminate. rewrite IH, count_steps_app.
-      destruct e'; cbn [count_steps]; lia.
-  Qed.
-
-  (* ---------------------------------------------------------------- staged schedules: closed forms *)
-  (* force constant: stage s is in effect from step first + s*N on, s <= nstages *)
-  Definition stage_closed (c : rcfg) (t : Z) : Z := Z.min (c_nstages c) ((t - c_it0 c) / c_nsteps c).
-  Definition lambda0 (c : rcfg) : T :=
-    match c_lambda_sched c with [] => if c_decoupling c then n1 O else n0 O | l0 :: _ => l0 end.
-  Definition closed_k_staged (c : rcfg) (t : Z) : T :=
-    if stage_closed c t =? 0 then k_of_lambda O c (lambda0 c)
-    else k_of_lambda O c (stage_lambda O c (stage_closed c t)).
-  (* centres: the (j+1)-th move, to lambda = j/nstages, happens at step first + j*N + 1, j <= nstages *)
-  Definition nmoves (c : rcfg) (t : Z) : Z :=
-    if t - c_it0 c <=? 0 then 0 else Z.min (c_nstages c + 1) ((t - c_it0 c - 1) / c_nsteps c + 1).
-  Definition closed_centers_staged (c : rcfg) (t : Z) : list T :=
-    if nmoves c t =? 0 then c_centers0 c
-    else map2 (wrapv O) (c_vars c) (new_centers O c (ratio O (nmoves c t - 1) (c_nstages c))).
-
-  (* ---------------------------------------------------------------- staged force constant, one run segment *)
-  Definition is_step (e : event) : Prop := match e with EStep _ => True | _ => False end.
-
-  Lemma div_succ a N : 0 <= a -> 0 < N ->
-    ((a + 1) mod N = 0 -> (a + 1) / N = a / N + 1) /\ ((a + 1) mod N <> 0 -> (a + 1) / N = a / N).
-  Proof.
-    intros Ha HN.
-    pose proof (Z.div_mod a N ltac:(lia)) as E1. pose proof (Z.div_mod (a + 1) N ltac:(lia)) as E2.
-    pose proof (Z.mod_pos_bound a N HN) as B1. pose proof (Z.mod_pos_bound (a + 1) N HN) as B2.
-    split; intros H; nia.
-  Qed.
-
-  Definition inv_ks (c : rcfg) (m : mstate) : Prop :=
-    s_first (m_st m) = c_it0 c /\ c_it0 c <= m_it m /\
-    (m_fresh m = true -> m_it m = c_it0 c /\ s_stage (m_st m) = 0) /\
-    (m_fresh m = false -> s_stage (m_st m) = stage_closed c (m_it m) /\ s_k (m_st m) = closed_k_staged c (m_it m)).
-
-  Lemma k_update_staged_spec c s t xs :
-    c_chg_k c = true -> negb (c_nstages c =? 0) = true ->
-    let s' := fst (k_update O c s t xs) in
-    let adv := (Z.rem (t - s_first s) (c_nsteps c) =? 0) && (s_first s <? t) && (s_stage s <? c_nstages c) in
-    s_stage s' = (if adv then s_stage s + 1 else s_stage s) /\
-    s_k s' = (if adv then k_of_lambda O c (stage_lambda O c (s_stage s + 1))
-              else if t =? s_first s then k_of_lambda O c (lambda0 c) else s_k s).
-  Proof.
-    intros Hc Hne. unfold k_update, lambda0. rewrite Hc, Hne.
-    destruct (t =? s_first s) eqn:E1; cbn [set_k s_first s_stage s_k s_FE s_kincr];
-      destruct (_ || _) eqn:E2; cbn [set_k s_first s_stage s_k s_FE s_kincr];
-      destruct (Z.rem _ _ =? 0) eqn:E3; destruct (s_first s <? t) eqn:E4; cbn [andb];
-      destruct (s_stage s <? c_nstages c) eqn:E5; cbn [fst set_k s_first s_stage s_k s_FE s_kincr]; auto.
-  Qed.
-
-  Lemma inv_ks_step c m e :
-    c_chg_k c = true -> c_chg_centers c = false -> 0 < c_nstages c -> 0 < c_nsteps c -> is_step e ->
-    inv_ks c m -> inv_ks c (mstep O c m e).
-  Proof.
-    intros Hc Hcc Hn HN He [Hf [Hle [Hfr Hk]]].
-    destruct e as [xs| |]; try contradiction.
-    destruct (mstep_unfold c m (EStep xs)) as [Hit [_ Hst]].
-    unfold inv_ks. rewrite Hit, Hst, rstep_first, mstep_not_fresh. cbn [ev_s0 ev_xs].
-    split; [exact Hf|].
-    assert (Hne : negb (c_nstages c =? 0) = true) by (apply negb_true_iff, Z.eqb_neq; lia).
-    set (t := ev_it m (EStep xs)) in *.
-    destruct (k_update_staged_spec c (m_st m) t xs Hc Hne) as [S1 S2]. rewrite Hf in S1, S2.
-    assert (Hgoal : c_it0 c <= t /\
-      s_stage (fst (k_update O c (m_st m) t xs)) = stage_closed c t /\
-      s_k (fst (k_update O c (m_st m) t xs)) = closed_k_staged c t).
-    { rewrite S1, S2. clear S1 S2.
-      destruct (m_fresh m) eqn:F.
-      - destruct (Hfr eq_refl) as [Hi Hs0]. assert (Ht : t = c_it0 c) by (unfold t, ev_it; rewrite F; exact Hi).
-        rewrite Ht, Z.eqb_refl, Z.ltb_irrefl, andb_false_r. cbn [andb].
-        assert (Hsc : stage_closed c (c_it0 c) = 0).
-        { unfold stage_closed. rewrite Z.sub_diag, Z.div_0_l by lia. lia. }
-        unfold closed_k_staged. rewrite Hsc. cbn [Z.eqb]. repeat split; [lia | exact Hs0].
-      - destruct (Hk eq_refl) as [Hs Hkk]. assert (Ht : t = m_it m + 1) by (unfold t, ev_it; rewrite F; reflexivity).
-        assert (Hneq : (t =? c_it0 c) = false) by (apply Z.eqb_neq; lia).
-        rewrite Hneq.
-        set (a := m_it m - c_it0 c). assert (Ha : 0 <= a) by (unfold a; lia).
-        assert (Hta : t - c_it0 c = a + 1) by (unfold a; lia).
-        destruct (div_succ a (c_nsteps c) Ha HN) as [D1 D2].
-        assert (Hlt : (c_it0 c <? t) = true) by (apply Z.ltb_lt; lia).
-        assert (Hz : 0 <= a / c_nsteps c) by (apply Z.div_pos; lia).
-        rewrite Hlt, andb_true_r, Hta, Z.rem_mod_nonneg by lia.
-        split; [lia|].
-        assert (Hsa : s_stage (m_st m) = Z.min (c_nstages c) (a / c_nsteps c)) by (rewrite Hs; reflexivity).
-        assert (Hka : s_k (m_st m) = (if Z.min (c_nstages c) (a / c_nsteps c) =? 0 then k_of_lambda O c (lambda0 c)
-                                       else k_of_lambda O c (stage_lambda O c (Z.min (c_nstages c) (a / c_nsteps c)))))
-          by (rewrite Hkk; reflexivity).
-        unfold closed_k_staged, stage_closed. rewrite Hta.
-        destruct ((a + 1) mod c_nsteps c =? 0) eqn:Em; cbn [andb].
-        + apply Z.eqb_eq in Em. specialize (D1 Em). rewrite D1.
-          destruct (s_stage (m_st m) <? c_nstages c) eqn:El.
-          * apply Z.ltb_lt in El.
-            replace (Z.min (c_nstages c) (a / c_nsteps c + 1)) with (s_stage (m_st m) + 1) by lia.
-            destruct (s_stage (m_st m) + 1 =? 0) eqn:Ez; [apply Z.eqb_eq in Ez; lia|]. split; reflexivity.
-          * apply Z.ltb_ge in El.
-            replace (Z.min (c_nstages c) (a / c_nsteps c + 1)) with (Z.min (c_nstages c) (a / c_nsteps c)) by lia.
-            split; [exact Hsa | exact Hka].
-        + apply Z.eqb_neq in Em. specialize (D2 Em). rewrite D2. split; [exact Hsa | exact Hka]. }
-    destruct Hgoal as [G1 [G2 G3]].
-    split; [exact G1|]. split; [discriminate|]. intros _.
-    rewrite rstep_k, centers_update_off by exact Hcc.
-    split; [|exact G3].
-    unfold rstep. rewrite centers_update_off by exact Hcc.
-    destruct (k_update O c (m_st m) t xs) as [s2 line]; cbn [fst] in *.
-    match goal with |- s_stage (work_k O c ?s ?r ?x) = _ => destruct (work_k_fields c s r x) as [_ [_ [_ H1]]]; rewrite H1 end.
-    match goal with |- s_stage (work_centers O c ?s ?tt ?r ?f) = _ => destruct (work_centers_fields c s tt r f) as [_ [_ [_ H2]]]; rewrite H2 end.
-    exact G2.
-  Qed.
-
-  Lemma k_schedule_staged_one_segment (c : rcfg) (evs : list event) :
-    c_chg_k c = true -> c_chg_centers c = false -> 0 < c_nstages c -> 0 < c_nsteps c ->
-    Forall is_step evs -> evs <> [] ->
-    s_stage (m_st (run O c evs)) = stage_closed c (m_it (run O c evs)) /\
-    s_k (m_st (run O c evs)) = closed_k_staged c (m_it (run O c evs)).
-  Proof.
-    intros Hc Hcc Hn HN Hall Hne.
-    assert (H : inv_ks c (run O c evs)).
-    { induction evs as [|e evs IH] using rev_ind.
-      - unfold inv_ks, run, init_m, init_state; cbn [fold_left m_st m_it m_fresh s_first s_stage].
-        repeat split; try lia; try discriminate.
-      - rewrite run_snoc. apply Forall_app in Hall as [Ha He]. inversion He as [|? ? He1 _]; subst.
-        apply inv_ks_step; auto.
-        destruct evs as [|e0 evs0]; [|apply IH; [exact Ha|discriminate]].
-        unfold inv_ks, run, init_m, init_state; cbn [fold_left m_st m_it m_fresh s_first s_stage].
-        repeat split; try lia; try discriminate. }
-    destruct H as [_ [_ [_ Hk]]]. apply Hk, run_not_fresh; assumption.
-  Qed.
-End Generic.
 
 (* ------------------------------------------------------------------ a computable carrier for witnesses *)
 (* Rational numbers with exact +,-,*,/, floor and comparisons; pow is defined for integer exponents
@@ -406,49 +39,6 @@ Section Witnesses.
     mkCfg Harmonic [wvp] [3#2] true [7#2] 1 false false (-1) (-1) 1 [] 4%Z 0%Z 0%Z true false false [0] [0] (-1) (-1) 0%Z.
   Definition half_steps (n : nat) : list (@event Q) := repeat (S (1#2)) n.
 
-  Definition final_k c evs := s_k (m_st (run Qops c evs)).
-  Definition final_it c evs := m_it (run Qops c evs).
-
-  (* a run boundary exactly at the end of stage 0 (step 3): the stage advances twice *)
-  Lemma w_staged_k_boundary :
-    let evs := half_steps 4 ++ [EBoundary [1#2]] in
-    final_it (cfg_ks 1) evs = 3%Z /\ s_stage (m_st (run Qops (cfg_ks 1) evs)) = 2%Z /\
-    Qeq_bool (final_k (cfg_ks 1) evs) (closed_k_staged Qops (cfg_ks 1) 3) = false.
-  Proof. vm_compute. auto. Qed.
-  Lemma w_staged_k_restart :
-    let evs := half_steps 4 ++ [ERestart [1#2]] in
-    final_it (cfg_ks 1) evs = 3%Z /\ s_stage (m_st (run Qops (cfg_ks 1) evs)) = 2%Z /\
-    Qeq_bool (final_k (cfg_ks 1) evs) (closed_k_staged Qops (cfg_ks 1) 3) = false.
-  Proof. vm_compute. auto. Qed.
-  (* staged centres: a run boundary at step 1 = first + 0*N + 1 moves the centres twice *)
-  Lemma w_staged_c_boundary :
-    let evs := half_steps 2 ++ [EBoundary [1#2]] in
-    final_it (cfg_cs 2) evs = 1%Z /\ s_centers (m_st (run Qops (cfg_cs 2) evs)) = [2] /\
-    closed_centers_staged Qops (cfg_cs 2) 1 = [1].
-  Proof. vm_compute. auto. Qed.
-  (* staged centres with targetNumSteps 1 never move *)
-  Lemma w_staged_c_N1 :
-    let evs := half_steps 5 in
-    final_it (cfg_cs 1) evs = 4%Z /\ s_centers (m_st (run Qops (cfg_cs 1) evs)) = [1] /\
-    closed_centers_staged Qops (cfg_cs 1) 4 = [3].
-  Proof. vm_compute. auto. Qed.
-  (* work of a changing force constant: after the schedule's end (step 2) the last increment keeps being added *)
-  Lemma w_work_k_after_end :
-    s_W (m_st (run Qops cfg_kc (half_steps 3))) = 1 /\ s_k (m_st (run Qops cfg_kc (half_steps 3))) = 3 /\
-    s_W (m_st (run Qops cfg_kc (half_steps 6))) = (5#2) /\ s_k (m_st (run Qops cfg_kc (half_steps 6))) = 3.
-  Proof. vm_compute. auto. Qed.
-  (* moving centre of a periodic variable: the increment at step 2 is 9/2 instead of 1/2 *)
-  Lemma w_work_c_periodic :
-    s_incr (m_st (run Qops cfg_ccp (half_steps 2))) = [1#2] /\
-    s_incr (m_st (run Qops cfg_ccp (half_steps 3))) = [9#2] /\
-    s_W (m_st (run Qops cfg_ccp (half_steps 3))) = 39.
-  Proof. vm_compute. auto. Qed.
-  (* TI, no equilibration: the first stage sums 4 samples (steps 0..3) of value 1 and divides by 3 *)
-  Lemma w_ti_first_stage :
-    exists o, nth_error (m_outs (run Qops (cfg_ks 0) (half_steps 4))) 3 = Some o /\
-              o_log (snd o) = Some (0, 4#3) /\
-              s_FE (snd (fst o)) = 0.
-  Proof. vm_compute. eexists. split; [reflexivity|]. auto. Qed.
 End Witnesses.
 
 (* ------------------------------------------------------------------ closed-form potentials over R *)
@@ -610,67 +200,119 @@ Section PotentialsR.
     intros k stop dec s x. pose proof (abmd_ratchet k stop dec s x) as H. cbv zeta in *.
     destruct (abmd_step Rops k stop dec s x) as [s' [e f]]. tauto.
   Qed.
+
+  (* ---- periodic variable with two walls: the closest-wall rule ---- *)
+  Lemma pdiff_p_unique P d y (n : Z) : 0 < P -> - P / 2 <= y < P / 2 -> d = y + IZR n * P -> pdiff_p Rops P d = y.
+  Proof.
+    intros HP Hy Hd. rewrite pdiff_p_eq.
+    assert (H : pshift Rops P d = n).
+    { unfold pshift, half, nhalf. rops. apply Zfloor_spec. subst d.
+      replace ((y + IZR n * P) / P + 1 / 2) with (y / P + 1 / 2 + IZR n) by (field; lra).
+      assert (Hq : - (1 / 2) <= y / P < 1 / 2).
+      { split.
+        - apply Rmult_le_reg_r with P; [lra|]. unfold Rdiv at 2. rewrite Rmult_assoc, Rinv_l by lra. lra.
+        - apply Rmult_lt_reg_r with P; [lra|]. unfold Rdiv at 1. rewrite Rmult_assoc, Rinv_l by lra. lra. }
+      lra. }
+    rewrite H. subst d. ring.
+  Qed.
+
+  Lemma walls_periodic (k lk uk : R) (hl hu : bool) (v : var) (x L U : R) :
+    v_width v <> 0 -> v_periodic v = true -> 0 < v_period v -> L < U -> U - L < v_period v ->
+    let dL := pdiff Rops v x L in let dU := pdiff Rops v x U in
+    ((exists n : Z, L <= x - IZR n * v_period v <= U) ->
+       walls_potential Rops k lk uk hl hu v x L U = 0 /\ walls_force Rops k lk uk hl hu v x L U = 0) /\
+    ((~ exists n : Z, L <= x - IZR n * v_period v <= U) ->
+       (dL ^ 2 < dU ^ 2 -> dL < 0 /\
+          walls_potential Rops k lk uk hl hu v x L U = k * lk / (2 * v_width v ^ 2) * dL ^ 2 /\
+          walls_force Rops k lk uk hl hu v x L U = - (k * lk / v_width v ^ 2) * dL) /\
+       (dU ^ 2 <= dL ^ 2 -> 0 < dU /\
+          walls_potential Rops k lk uk hl hu v x L U = k * uk / (2 * v_width v ^ 2) * dU ^ 2 /\
+          walls_force Rops k lk uk hl hu v x L U = - (k * uk / v_width v ^ 2) * dU)).
+  Proof.
+    intros Hw Hp HP HLU Harc dL dU.
+    set (P := v_period v) in *.
+    assert (EL : dL = pdiff_p Rops P (x - L)) by (unfold dL, pdiff; rewrite Hp; rops; reflexivity).
+    assert (EU : dU = pdiff_p Rops P (x - U)) by (unfold dU, pdiff; rewrite Hp; rops; reflexivity).
+    pose proof (pdiff_p_range P (x - L) HP) as RL. rewrite <- EL in RL.
+    pose proof (pdiff_p_range P (x - U) HP) as RU. rewrite <- EU in RU.
+    assert (ML : dL = x - L - IZR (pshift Rops P (x - L)) * P) by (rewrite EL; apply pdiff_p_eq).
+    assert (MU : dU = x - U - IZR (pshift Rops P (x - U)) * P) by (rewrite EU; apply pdiff_p_eq).
+    (* the code, in terms of dL and dU *)
+    assert (Hdist : walls_dist Rops hl hu v x L U =
+                    if Rltb (dL * dL) (dU * dU) then (if Rltb (2 * dL) 0 then 1 / 2 * (2 * dL) else 0)
+                    else (if Rltb 0 (2 * dU) then 1 / 2 * (2 * dU) else 0)).
+    { unfold walls_dist, dist2, dist2_lgrad. rewrite Hp. fold dL dU. rops. reflexivity. }
+    assert (Hpot : forall d, walls_dist Rops hl hu v x L U = d ->
+              walls_potential Rops k lk uk hl hu v x L U = 1 / 2 * k * (if Rltb 0 d then uk else lk) / (v_width v * v_width v) * d * d /\
+              walls_force Rops k lk uk hl hu v x L U = - k * (if Rltb 0 d then uk else lk) / (v_width v * v_width v) * d).
+    { intros d Hd. unfold walls_potential, walls_force, walls_scale, wsq. rewrite Hd. rops. split; reflexivity. }
+    split.
+    - (* inside *)
+      intros [n [Hn1 Hn2]].
+      set (a := x - IZR n * P - L). assert (Ha : 0 <= a <= U - L) by (unfold a; lra).
+      assert (HdL : (a < P / 2 /\ dL = a) \/ (P / 2 <= a /\ dL = a - P)).
+      { destruct (Rlt_dec a (P / 2)) as [Hlt|Hge].
+        - left. split; [exact Hlt|]. rewrite EL. apply (pdiff_p_unique P (x - L) a n HP); [lra | unfold a; ring].
+        - right. split; [lra|]. rewrite EL. apply (pdiff_p_unique P (x - L) (a - P) (n + 1) HP); [lra|].
+          rewrite plus_IZR. unfold a. ring. }
+      assert (HdU : (- P / 2 <= a - (U - L) /\ dU = a - (U - L)) \/ (a - (U - L) < - P / 2 /\ dU = a - (U - L) + P)).
+      { destruct (Rle_dec (- P / 2) (a - (U - L))) as [Hle|Hgt].
+        - left. split; [exact Hle|]. rewrite EU. apply (pdiff_p_unique P (x - U) (a - (U - L)) n HP); [lra | unfold a; ring].
+        - right. split; [lra|]. rewrite EU. apply (pdiff_p_unique P (x - U) (a - (U - L) + P) (n - 1) HP); [lra|].
+          rewrite minus_IZR. unfold a. ring. }
+      assert (Hzero : walls_dist Rops hl hu v x L U = 0).
+      { rewrite Hdist.
+        destruct (Rltb (dL * dL) (dU * dU)) eqn:E1.
+        - apply Rltb_true in E1. destruct (Rltb (2 * dL) 0) eqn:E2; [|reflexivity]. apply Rltb_true in E2. exfalso.
+          destruct HdL as [[H1 H2]|[H1 H2]]; [lra|].
+          destruct HdU as [[H3 H4]|[H3 H4]]; [|lra].
+          rewrite H2, H4 in E1. nra.
+        - apply Rltb_false in E1. destruct (Rltb 0 (2 * dU)) eqn:E2; [|reflexivity]. apply Rltb_true in E2. exfalso.
+          destruct HdU as [[H3 H4]|[H3 H4]]; [lra|].
+          destruct HdL as [[H1 H2]|[H1 H2]]; [|lra].
+          rewrite H2, H4 in E1. nra. }
+      destruct (Hpot 0 Hzero) as [Q1 Q2]. rewrite Q1, Q2. split; ring.
+    - (* outside *)
+      intros Hout.
+      assert (C1 : dL * dL < dU * dU -> dL < 0).
+      { intros Hlt. destruct (Rlt_dec dL 0) as [H|H]; [exact H|]. exfalso. apply Rnot_lt_le in H.
+        set (m := pshift Rops P (x - L)) in *.
+        assert (Hgt : U - L < dL).
+        { destruct (Rlt_dec (U - L) dL) as [H1|H1]; [exact H1|]. exfalso. apply Hout. exists m. lra. }
+        assert (HU : dU = dL - (U - L)).
+        { rewrite EU. apply (pdiff_p_unique P (x - U) (dL - (U - L)) m HP); [lra | lra]. }
+        rewrite HU in Hlt. nra. }
+      assert (C2 : dU * dU <= dL * dL -> 0 < dU).
+      { intros Hle. destruct (Rlt_dec 0 dU) as [H|H]; [exact H|]. exfalso. apply Rnot_lt_le in H.
+        set (m := pshift Rops P (x - U)) in *.
+        assert (Hlt : dU < - (U - L)).
+        { destruct (Rlt_dec dU (- (U - L))) as [H1|H1]; [exact H1|]. exfalso. apply Hout. exists m. lra. }
+        assert (HL : dL = dU + (U - L)).
+        { rewrite EL. apply (pdiff_p_unique P (x - L) (dU + (U - L)) m HP); [lra | lra]. }
+        rewrite HL in Hle. nra. }
+      split.
+      + intros Hlt. assert (Hlt' : dL * dL < dU * dU) by lra. specialize (C1 Hlt'). split; [exact C1|].
+        assert (Hd : walls_dist Rops hl hu v x L U = dL).
+        { rewrite Hdist. destruct (Rltb (dL * dL) (dU * dU)) eqn:E1; [|apply Rltb_false in E1; lra].
+          destruct (Rltb (2 * dL) 0) eqn:E2; [field | apply Rltb_false in E2; lra]. }
+        destruct (Hpot dL Hd) as [Q1 Q2]. rewrite Q1, Q2.
+        destruct (Rltb 0 dL) eqn:E3; [apply Rltb_true in E3; lra|]. split; field; exact Hw.
+      + intros Hle. assert (Hle' : dU * dU <= dL * dL) by lra. specialize (C2 Hle'). split; [exact C2|].
+        assert (Hd : walls_dist Rops hl hu v x L U = dU).
+        { rewrite Hdist. destruct (Rltb (dL * dL) (dU * dU)) eqn:E1; [apply Rltb_true in E1; lra|].
+          destruct (Rltb 0 (2 * dU)) eqn:E2; [field | apply Rltb_false in E2; lra]. }
+        destruct (Hpot dU Hd) as [Q1 Q2]. rewrite Q1, Q2.
+        destruct (Rltb 0 dU) eqn:E3; [|apply Rltb_false in E3; lra]. split; field; exact Hw.
+  Qed.
+
+  Lemma example_walls_closest :
+    let v := mkVar 1 true 4 0 in
+    pdiff Rops v 3.75 1 = -1.25 /\ pdiff Rops v 3.75 2 = 1.75 /\ ~ exists n : Z, 1 <= 3.75 - IZR n * 4 <= 2.
+  Proof.
+    cbv zeta. unfold pdiff. cbn [v_periodic v_period]. rops. repeat split.
+    - apply (pdiff_p_unique 4 (3.75 - 1) (-1.25) 1); simpl; lra.
+    - apply (pdiff_p_unique 4 (3.75 - 2) 1.75 0); simpl; lra.
+    - intros [n [H1 H2]]. assert (A : (0 < n)%Z) by (apply lt_IZR; simpl; lra).
+      assert (B : (n < 1)%Z) by (apply lt_IZR; simpl; lra). lia.
+  Qed.
 End PotentialsR.
-
-(* ------------------------------------------------------------------ refutations of the full-strength statements *)
-Section Refuted.
-  Local Open Scope Q_scope.
-  Definition has_boundary {T} (evs : list (@event T)) : bool := existsb (fun e => match e with EBoundary _ => true | _ => false end) evs.
-  Definition has_restart {T} (evs : list (@event T)) : bool := existsb (fun e => match e with ERestart _ => true | _ => false end) evs.
-
-  Lemma k_schedule_staged_refuted_boundary :
-    exists (c : @rcfg Q) evs, c_chg_k c = true /\ c_chg_centers c = false /\ (0 < c_nstages c)%Z /\ (0 < c_nsteps c)%Z /\ evs <> [] /\
-      has_restart evs = false /\
-      Qeq_bool (s_k (m_st (run Qops c evs))) (closed_k_staged Qops c (m_it (run Qops c evs))) = false.
-  Proof. exists (cfg_ks 1), (half_steps 4 ++ [EBoundary [1#2]]). vm_compute. repeat split; discriminate. Qed.
-
-  Lemma k_schedule_staged_refuted_restart :
-    exists (c : @rcfg Q) evs, c_chg_k c = true /\ c_chg_centers c = false /\ (0 < c_nstages c)%Z /\ (0 < c_nsteps c)%Z /\ evs <> [] /\
-      has_boundary evs = false /\
-      Qeq_bool (s_k (m_st (run Qops c evs))) (closed_k_staged Qops c (m_it (run Qops c evs))) = false.
-  Proof. exists (cfg_ks 1), (half_steps 4 ++ [ERestart [1#2]]). vm_compute. repeat split; discriminate. Qed.
-
-  Lemma center_schedule_staged_refuted_boundary :
-    exists (c : @rcfg Q) evs, c_chg_centers c = true /\ (0 < c_nstages c)%Z /\ (2 <= c_nsteps c)%Z /\ evs <> [] /\
-      s_centers (m_st (run Qops c evs)) <> closed_centers_staged Qops c (m_it (run Qops c evs)).
-  Proof. exists (cfg_cs 2), (half_steps 2 ++ [EBoundary [1#2]]). vm_compute. repeat split; discriminate. Qed.
-
-  Lemma center_schedule_staged_refuted_N1 :
-    exists (c : @rcfg Q) evs, c_chg_centers c = true /\ (0 < c_nstages c)%Z /\ c_nsteps c = 1%Z /\ evs <> [] /\
-      Forall (fun e => match e with EStep _ => True | _ => False end) evs /\
-      s_centers (m_st (run Qops c evs)) <> closed_centers_staged Qops c (m_it (run Qops c evs)).
-  Proof.
-    exists (cfg_cs 1), (half_steps 5). split; [reflexivity|]. split; [reflexivity|]. split; [reflexivity|].
-    split; [discriminate|]. split; [repeat constructor|]. vm_compute. discriminate.
-  Qed.
-
-  (* accumulated work of a changing force constant: the documented value is the sum of dU/dk x (k increment);
-     after the end of the schedule (k constant) it must stay constant *)
-  Lemma work_k_refuted :
-    exists (c : @rcfg Q) evs1 evs2, c_chg_k c = true /\ c_nstages c = 0%Z /\ c_acc_work c = true /\
-      (c_it0 c + c_nsteps c <= m_it (run Qops c evs1))%Z /\
-      s_k (m_st (run Qops c (evs1 ++ evs2))) = s_k (m_st (run Qops c evs1)) /\
-      Qeq_bool (s_W (m_st (run Qops c (evs1 ++ evs2)))) (s_W (m_st (run Qops c evs1))) = false.
-  Proof. exists cfg_kc, (half_steps 3), (half_steps 3). vm_compute. repeat split; discriminate. Qed.
-
-  (* accumulated work of a moving centre on a periodic variable: the centre moves by 1/2 per step, the
-     increment used at step 2 is 9/2 (one period too many) *)
-  Lemma work_centers_periodic_refuted :
-    exists (c : @rcfg Q) evs, c_chg_centers c = true /\ c_nstages c = 0%Z /\ c_acc_work c = true /\
-      new_centers Qops c (ratio Qops 2 4) = [5#2] /\ new_centers Qops c (ratio Qops 1 4) = [2] /\
-      m_it (run Qops c evs) = 2%Z /\ s_incr (m_st (run Qops c evs)) = [9#2].
-  Proof. exists cfg_ccp, (half_steps 3). vm_compute. repeat split. Qed.
-
-  (* staged TI without equilibration: the value written for the first stage is (sum of N+1 samples)/N *)
-  Lemma ti_first_stage_refuted :
-    exists (c : @rcfg Q) evs o, c_chg_k c = true /\ c_equil c = 0%Z /\ c_nsteps c = 3%Z /\
-      Forall (fun e => match e with EStep _ => True | _ => False end) evs /\
-      (forall e, In e evs -> dlambda_factor Qops c (stage_lambda Qops c 0) * dUdk_sum Qops c (init_state Qops c) (ev_xs e) == 1) /\
-      nth_error (m_outs (run Qops c evs)) 3 = Some o /\ o_log (snd o) = Some (0, 4#3).
-  Proof.
-    exists (cfg_ks 0), (half_steps 4). eexists. split; [reflexivity|]. split; [reflexivity|]. split; [reflexivity|].
-    split; [repeat constructor|]. split.
-    - intros e He. cbn in He. destruct He as [<-|[<-|[<-|[<-|[]]]]]; vm_compute; reflexivity.
-    - vm_compute. split; reflexivity.
-  Qed.
-End Refuted.
